@@ -341,11 +341,72 @@ def run(chk):
                     f"block-deficient start vector the space is clamped below the dimension of the reachable sector (eigs/lin_solver stop being "
                     f"exact; expmv degenerates to a one-dimensional space and its step-size controller diverges)")
 
+    run_X7(chk)
     from . import e10
     e10.run_U(chk, ("yastn.krylov", "yastn.tensor._krylov"), floor1=5, floor2=1)
 
+
+def run_X7(chk):
+    """X7: the controller of expmv compares the dimension m of the space it got with `ncv_max` by equality (`m == ncv_max`: shrink the
+    step instead of growing the space) and bounds the next request by `min(ncv_max, ..)`.  That is only coherent if *every* value of
+    `ncv` handed to expand_krylov_space is <= ncv_max; a first request above it (the caller's ncv) yields m > ncv_max, the equality
+    never holds, the next request is clamped below the size of the space already built, expand_krylov_space adds nothing and the loop
+    repeats the same rejected step for ever (expmv(.., ncv=31) does not return)."""
+    prog = chk.prog
+    chk.rule("X7", "expmv: every value of the requested Krylov dimension is bounded by the maximal dimension the controller tests for", floor=2)
+    f = prog.func(KRY, "expmv")
+    b = A.local_bindings(f.node)
+    eq = [c for c in ast.walk(f.node) if isinstance(c, ast.Compare) and len(c.ops) == 1 and isinstance(c.ops[0], ast.Eq)
+          and isinstance(c.comparators[0], ast.Name) and isinstance(c.left, ast.Name) and "max" in c.comparators[0].id]
+    if not eq:
+        chk.note("X7: the controller no longer tests the dimension of the space against a maximal dimension by equality; rule not applicable")
+        return
+    bound = eq[0].comparators[0].id
+    call = [c for c in ast.walk(f.node) if isinstance(c, ast.Call) and A.callee_attr(c) == "expand_krylov_space"]
+    chk.require(call, "expmv: call of expand_krylov_space not found")
+    names = f.node.args
+    ek = prog.func(TKR, "expand_krylov_space")
+    idx = ek.params.index("ncv") - 1 if "ncv" in ek.params else None
+    req = A.kwarg(call[0], "ncv") or (call[0].args[idx] if idx is not None and idx < len(call[0].args) else None)
+    chk.require(isinstance(req, ast.Name), "expmv: the requested dimension passed to expand_krylov_space is not a local name")
+    var = req.id
+    bconst = [v for st, v, k in b.get(bound, []) if isinstance(v, ast.Constant) and isinstance(v.value, int)]
+    bval = bconst[0].value if len(bconst) == len(b.get(bound, [])) == 1 else None
+
+    def bounded(e, depth=0):
+        if depth > 6:
+            return False
+        if isinstance(e, ast.Name):
+            if e.id == bound:
+                return True
+            ds = [v for st, v, k in b.get(e.id, []) if k == "assign"]
+            return bool(ds) and e.id != var and e.id not in f.params and all(v is not None and bounded(v, depth + 1) for v in ds)
+        if isinstance(e, ast.Constant) and isinstance(e.value, (int, float)):
+            return bval is not None and e.value <= bval
+        if isinstance(e, ast.Call):
+            nm = (A.call_name(e) or "").split(".")[-1]
+            args = list(e.args)
+            if len(args) == 1 and isinstance(args[0], (ast.List, ast.Tuple)):
+                args = list(args[0].elts)
+            if nm == "min":
+                return any(bounded(a_, depth + 1) for a_ in args)
+            if nm == "max":
+                return bool(args) and all(bounded(a_, depth + 1) for a_ in args)
+            if nm in ("int", "ceil", "floor", "round") and len(args) == 1:
+                return bounded(args[0], depth + 1)
+        return False
+    defs = [(st, v) for st, v, k in b.get(var, []) if v is not None]
+    chk.require(defs, f"expmv: no definition of `{var}` found")
+    for st, v in defs:
+        ok = bounded(v)
+        chk.verdict("X7", (f, st), f"expmv: `{A.short(st, 60)}` <= {bound}", True if ok else False,
+                    f"expmv(): `{A.short(st, 70)}` lets the requested dimension `{var}` exceed `{bound}`, while the controller recognises a full space only by "
+                    f"`{A.text(eq[0])}` and clamps later requests by min({bound}, ..): for a caller's ncv above {bval if bval is not None else bound} the "
+                    f"rejected step is repeated with a request smaller than the space already built -- the call never returns")
+
 MUTANTS = [
-    ("Krylov space clamped by stored size", "yastn/krylov/_krylov.py", "    ncv, ncv_max = max(1, ncv), 30  # Krylov space parameters; its true maximal dimension shows up as happy breakdown", "    ncv, ncv_max = max(1, ncv), min([30, v.size])", "X6"),
+    ("Krylov space clamped by stored size", "yastn/krylov/_krylov.py", "    ncv_max = 30  # Krylov space parameters; its true maximal dimension shows up as happy breakdown", "    ncv_max = min([30, v.size])", "X6"),
+    ("initial request not bounded by ncv_max", "yastn/krylov/_krylov.py", "    ncv = min(max(1, ncv), ncv_max)\n", "    ncv = max(1, ncv)\n", "X7"),
     ("Arnoldi: ket/bra swapped", "yastn/tensor/_krylov.py", "                H[(i, j)] = V[i].vdot(w)", "                H[(i, j)] = w.vdot(V[i])", "X1"),
     ("Lanczos: subtract previous with diagonal coefficient", "yastn/tensor/_krylov.py", "amplitudes=[1, -H[(j - 1, j)], -H[(j, j)]]", "amplitudes=[1, -H[(j, j)], -H[(j - 1, j)]]", "X1"),
     ("divide before breakdown test", "yastn/tensor/_krylov.py", "        if H[(j + 1, j)] < tol:\n            happy = True\n            H.pop((j + 1, j))\n            break\n        V.append(w / H[(j + 1, j)])",
